@@ -27,11 +27,23 @@ PROPS = {
     note=TB + "Reduced-precision values (sub-microsecond start, sub-millisecond offset, empty RTP payload which reads back as RTCP) are outside both the round-trip and the refusal clause and are left unconstrained. time.Time.UnixNano overflow (years < 1678 or > 2262) is outside the model.",
     assumptions=["bufio.Reader/io.ReadFull/regexp behave as modelled (exercised by the correspondence run)"],
     design_ref="§6 C36"),
+ "C40": dict(
+    level="other",
+    technique="translator (go/ast+go/types lock-order extractor, regenerated from /repo on every run) + Lean 4 theorem: ranked lock graph ⇒ no wait-for cycle in any interleaving; data-race half searched with the Go race detector on seeded concurrent programs",
+    text="PARTIAL by construction. Deadlock half — a theorem: harness/cmd/lockgraph re-extracts, from /repo's current source on every run, which lock (owner type, field) is acquired while which is held, closing over statically resolved callees of the package, and emits lean/WebrtcVerif/Generated/LockGraph.lean; C40_graph_ranked re-checks by `decide` that every edge goes strictly up in a rank (no cycle, no recursive locking), and C40_reachable_disciplined / C40_no_cycle_of_disciplined / C40_no_deadlock prove, for any number of threads and any interleaving of request/acquire/release steps that follow the extracted order, that no reachable state contains a wait-for cycle. A cycle found in the extracted graph is reported with the code sites of its edges as the failing state. Race half — NOT a theorem (it is a statement about the Go memory model over every access): seeded concurrent programs (4–12 goroutines calling AddTrack, RemoveTrack, AddTransceiverFromKind, CreateDataChannel, getters, GetStats, WriteRTP/WriteSample, Close, next to a serialized offer/answer exchange) run from a -race build with a 40 s watchdog; a race report or hang is a failing input (seed = replay).",
+    note=TB + "The extractor (syntactic walk, may-hold sets, static callees only: interface calls, callbacks stored in fields and other packages are not followed; lock identity is (type, field), so two instances of one type are one lock) is trusted and sanity-checked against a hand-justified list of expected edges. Blocking on channels/WaitGroups while holding a lock is outside the lock-order model. The race detector only sees executions that happen.",
+    assumptions=["static call resolution covers the nested acquisitions that matter", "race detector coverage is whatever the seeded programs reach"],
+    explain="deadlock freedom of the extracted lock order is machine-checked in Lean against a lock graph regenerated from the source on every run; data-race freedom is only searched (race detector) and is not proved",
+    design_ref="§6 C40"),
 }
 
 LEVELS = {k: v["level"] for k, v in PROPS.items()}
 ASSUMPTIONS = {k: v.get("assumptions", []) for k, v in PROPS.items()}
 EXPLAIN = {k: v.get("explain", "") for k, v in PROPS.items()}
+
+# regenerated model parts / special builds
+PRE = {"C40": "lockgraph"}
+RACE = {"C40"}
 
 NOT_APPLICABLE = {
 }
